@@ -573,6 +573,14 @@ fn path_label(op: &str, calls: &[CallRec]) -> String {
   format!("{op}[{}]", names.join(","))
 }
 
+/// `did:x:1/p?q#f` -> `did:x:1#f`: the id without its path and query.
+fn plain_id(id: &str) -> String {
+  match id.split_once('#') {
+    Some((before, fragment)) => format!("{}#{fragment}", before.split(['/', '?']).next().unwrap_or(before)),
+    None => id.to_string(),
+  }
+}
+
 fn judge_step(step: &Step, obs: &mut Obs) -> CheckResult {
   let Step { kind, pre, post, outcome, calls, gen_obs } = step;
   let injected = calls.iter().filter(|c| c.injected).count();
@@ -622,8 +630,18 @@ fn judge_step(step: &Step, obs: &mut Obs) -> CheckResult {
     (_, Outcome::Panicked(msg)) => {
       vfail!(obs, format!("{op}-method-panics"), "{path}: {op}_method panicked: {msg}");
     }
-    (_, Outcome::Err { undo_failed: true, .. }) => {
-      // Explicit report of a failed undo step: the statement exempts it; nothing else is required.
+    (_, Outcome::Err { undo_failed: true, text }) => {
+      // Explicit report of a failed undo step: the statement exempts the state it leaves. What it reports has to have
+      // happened, though: some storage call of this operation failed after the operation had already changed state
+      // (otherwise there was nothing to undo, or nothing kept the undo from succeeding).
+      let first_failed = calls.iter().position(|c| !c.ok);
+      let undo_could_fail = first_failed.is_some_and(|i| target_present || calls[..i].iter().any(|c| c.ok));
+      vensure!(
+        obs,
+        undo_could_fail,
+        format!("{op}-reports-failed-undo-without-failed-call"),
+        "{path}: Err({text}) reports a failed undo step, but no storage call failed after the operation had changed state"
+      );
     }
     (StepKind::Generate { scope, fragment, colliding }, Outcome::Ok(f)) => {
       let Some(g) = gen_obs.as_ref() else {
@@ -747,16 +765,21 @@ fn judge_step(step: &Step, obs: &mut Obs) -> CheckResult {
         "purge-ok-key-removed-but-method-remains",
         "{path}: Ok for {id}: keys -{k_lost:?}, key ids -{i_lost:?} were deleted but no method left the document"
       );
-      // Frame: only the target, the references to it, its key and its key id went away.
+      // Frame: only the target, the references to it, its key and its key id went away. An id spelled with a path or
+      // query names no method by itself; a purge that takes it for the method with the same DID and fragment and
+      // removes everything that belongs to that method is as complete as one that refuses the id.
+      let plain = plain_id(id);
+      let variant = &plain != id;
+      let names_target = |x: &String| x == id || *x == plain;
       let frame_ok = m_new.is_empty()
-        && m_lost.iter().all(|m| &m.0 == id)
+        && m_lost.iter().all(|m| names_target(&m.0))
         && r_new.is_empty()
-        && r_lost.iter().all(|r| &r.1 == id)
+        && r_lost.iter().all(|r| names_target(&r.1))
         && services_same
         && k_new.is_empty()
-        && k_lost.iter().all(|k| Some(k) == key_id)
+        && (variant && k_lost.len() <= 1 || k_lost.iter().all(|k| Some(k) == key_id))
         && i_new.is_empty()
-        && i_lost.iter().all(|(d, _)| Some(d) == digest.as_ref());
+        && (variant && i_lost.len() <= 1 || i_lost.iter().all(|(d, _)| Some(d) == digest.as_ref()));
       vensure!(
         obs,
         frame_ok,
